@@ -1134,6 +1134,9 @@ def impl_openmatrix(case):
 # the real kpsewhich path: unpatched pybtex.io / pybtex.kpathsea, real files, a kpsewhich program of our own on PATH
 
 KPSE_DOC = '@misc{k1, note = {found through kpsewhich: café}}\n'
+# case['doc'] picks one (default 0); the second holds Latin-1 text whose bytes are also well-formed UTF-8 (Ã© = C3 A9)
+KPSE_DOCS = [KPSE_DOC, '@misc{k1, author = {Müßig, Jürgen}, note = {Ã©tude sur l\'été}}\n']
+KPSE_ENCODINGS = ['latin-1', 'cp1252', 'utf-16', 'utf-8-sig', 'utf-8']
 
 
 def impl_kpse(case):
@@ -1145,12 +1148,14 @@ def impl_kpse(case):
 
     def sub(x):
         return x.replace('<T>', tmp)
+    enc = case.get('enc')                     # the encoding given to open_unicode / parse_file (None: not given); the files are written in it
+    ekw = {} if enc is None else {'encoding': enc}
     try:
         content = {}
         for i, rel in enumerate(case['exists']):
             path = sub(rel)
             os.makedirs(os.path.dirname(path), exist_ok=True)
-            content[rel] = KPSE_DOC.replace('k1', 'k%d' % (i + 1)).encode('utf-8')
+            content[rel] = KPSE_DOCS[case.get('doc', 0)].replace('k1', 'k%d' % (i + 1)).encode(enc or 'utf-8')
             with open(path, 'wb') as f:
                 f.write(content[rel])
         script = dict(case['script'])
@@ -1160,19 +1165,26 @@ def impl_kpse(case):
         with fake_kpsewhich(tmp, script):
             try:
                 if case['fn'] == 'parse':
-                    res = {'ok': {'db': canon_db(database.parse_file(sub(case['name']), 'bibtex'))}}
+                    res = {'ok': {'db': canon_db(database.parse_file(sub(case['name']), 'bibtex', **ekw))}}
                 else:
-                    f = (pio.open_raw if case['fn'] == 'raw' else pio.open_unicode)(sub(case['name']))
+                    f = (pio.open_raw if case['fn'] == 'raw' else pio.open_unicode)(sub(case['name']), **ekw)
                     try:
-                        data = f.read()
                         name = f.name
+                        try:
+                            data = f.read()
+                            data = hx(data if isinstance(data, bytes) else data.encode('utf-8'))
+                        except UnicodeError as e:         # the file WAS opened: what follows is not a failure to open
+                            data = {'read failed': '%s: %s' % (type(e).__name__, e)}
                     finally:
                         f.close()
-                    res = {'ok': {'handle': _untmp(name, tmp), 'data': hx(data if isinstance(data, bytes) else data.encode('utf-8'))}}
+                    res = {'ok': {'handle': _untmp(name, tmp), 'data': data}}
             except Exception as e:  # noqa
                 oe = _untmp(_open_error(e), tmp)
                 res = {'err': {'kind': oe['err'], 'message': oe['message'], 'rendered': oe['rendered']}}
-        want = {rel: ({'db': canon_db(database.parse_string(b.decode('utf-8'), 'bibtex'))} if case['fn'] == 'parse' else hx(b))
+        # what the file holds: for parse_file the database parse_string gives for the text, for open_unicode the text (shown as its
+        # UTF-8 bytes), for open_raw the bytes
+        want = {rel: ({'db': canon_db(database.parse_string(b.decode(enc or 'utf-8'), 'bibtex', **ekw))} if case['fn'] == 'parse' else
+                      hx(b) if case['fn'] == 'raw' else hx(b.decode(enc or 'utf-8').encode('utf-8')))
                 for rel, b in content.items()}
     finally:
         shutil.rmtree(tmp, ignore_errors=True)
@@ -1184,7 +1196,7 @@ def req_kpse(case):
         return {'op': 'ping', 's': ''}
     w = {'isfile': [case['name']] if case['name'] in case['exists'] else [], 'environ': [], 'fail': [],
          'locate': script_locate(case['script'])}
-    return {'op': 'openmatrix', 'fn': 'raw' if case['fn'] == 'raw' else 'unicode', 'mode': 'rb' if case['fn'] == 'raw' else 'r', 'encoding': None,
+    return {'op': 'openmatrix', 'fn': 'raw' if case['fn'] == 'raw' else 'unicode', 'mode': 'rb' if case['fn'] == 'raw' else 'r', 'encoding': case.get('enc'),
             'arg': 'path', 'path': case['name'], 'world': world_req(w, only=case['exists'])}
 
 
@@ -1340,6 +1352,27 @@ def _short(x, n=160):
     return s if len(s) <= n else s[:n] + '...'
 
 
+def _world_target(case):
+    """The file a read of case['path'] opens in a CONSISTENT world where that open succeeds, or None when the world is not of that kind:
+    the name itself when it is a file; otherwise what a kpsewhich that exits with 0 printed (a clean path and one newline, as the real
+    program does).  The file must be one of case['files'] (the in-memory file system holds the document there) and not fail to open."""
+    w = case.get('world')
+    if w is None:
+        return None
+    failing = set(q for q, _ in w['fail'])
+    path = case['path']
+    if path in w['isfile']:
+        target = path
+    else:
+        proc = proc_of(w['locate'])
+        if not (proc['kind'] == 'proc' and proc['rc'] == 0 and proc['stdout'].endswith('\n')):
+            return None
+        target = proc['stdout'][:-1]
+        if not target or target != target.strip():
+            return None
+    return target if target in case.get('files', []) and target not in failing else None
+
+
 def oracle(case, io, reply):
     op = case['op']
     fails = []
@@ -1435,9 +1468,11 @@ def oracle(case, io, reply):
             got = r['ok'].get('data', r['ok']) if 'ok' in r else None
             if got != want:
                 fails.append('%s: %r %s and can be opened, but %s ended in %s' % (
-                    'entry_points_agree' if target == name else 'kpsewhich_lookup', target,
+                    'entry_points_agree' if target == name or ('ok' in r and r['ok'].get('handle', target) in both_forms(target) + [target]) else 'kpsewhich_lookup', target,
                     'exists' if target == name else 'is what kpsewhich printed for %r' % name,
-                    {'raw': 'open_raw', 'unicode': 'open_unicode', 'parse': 'parse_file'}[case['fn']], _short(r)))
+                    {'raw': 'open_raw', 'unicode': 'open_unicode', 'parse': 'parse_file'}[case['fn']] +
+                    ('' if case.get('enc') is None else ' with encoding=%r' % case['enc']), _short(r)) +
+                    ('' if case.get('enc') is None else '; the file holds %s' % _short(want)))
         return fails
     # entrypoints
     if 'skip' in io:
@@ -1461,6 +1496,15 @@ def oracle(case, io, reply):
             vals = list(r['ok'].values())
             if len(vals) != 1 or vals[0] != io['reference']:
                 fails.append('write_entry_points: to_file in a world with failing opens wrote %s, to_bytes is %s' % (_short(r['ok']), _short(io['reference'])))
+        # "parsing ... a file ... containing them equals parsing the string": the file that gets opened (the name itself when it is a
+        # file, else what kpsewhich printed) exists, holds exactly the encoded bytes and can be opened -- then nothing was a failure to
+        # open, and the outcome is the database parse_string gives, in the encoding the reader was given
+        target = _world_target(case)
+        if case['side'] == 'read' and target is not None and not case.get('corrupt') and not (isinstance(io['reference'], dict) and 'err' in io['reference']):
+            if 'err' in r:
+                fails.append('entry_points_agree: %r %s, holds the document encoded in %s and can be opened, but parse_file(%r, %r, encoding=%r) ended in %s: %s' % (
+                    target, 'is a file' if target == case['path'] else 'is what kpsewhich printed for %r' % case['path'],
+                    case['enc'] or 'the default encoding', case['path'], case['fmt'], case['enc'], r['err'], _short(r.get('message'), 140)))
         return fails
     res = io['results']
     for k, v in res.items():
@@ -1567,7 +1611,8 @@ def buckets(case, io):
         r = io['result']
         return ['openmatrix:%s:%s:%s' % (case['arg'], 'write' if 'w' in case['mode'] else 'read', 'ok' if 'ok' in r else 'error')]
     if op == 'kpse':
-        return ['kpse:skip'] if 'skip' in io else ['kpse:%s:%s:%s' % (case['fn'], case['script']['kind'], 'ok' if 'ok' in io['result'] else 'error')]
+        return ['kpse:skip'] if 'skip' in io else ['kpse:%s:%s:%s%s' % (case['fn'], case['script']['kind'], 'ok' if 'ok' in io['result'] else 'error',
+                                                                      '' if case.get('enc') is None else ':encoding=' + case['enc'])]
     return ['pathfn:' + case['fn']]
 
 
@@ -1623,7 +1668,8 @@ def valid_case(c):
         return (isinstance(sc, dict) and sc.get('kind') in ('print', 'missing', 'noexec') and c.get('fn') in ('raw', 'unicode', 'parse') and
                 isinstance(c.get('name'), str) and c['name'].startswith('<T>/') and "'" not in c['name'] and isinstance(c.get('exists'), list) and
                 all(isinstance(x, str) and x.startswith('<T>/') for x in c['exists']) and
-                (sc['kind'] != 'print' or (isinstance(sc.get('rc'), int) and 0 <= sc['rc'] < 256 and isinstance(sc.get('out'), str))))
+                (sc['kind'] != 'print' or (isinstance(sc.get('rc'), int) and 0 <= sc['rc'] < 256 and isinstance(sc.get('out'), str))) and
+                c.get('enc', None) in [None] + KPSE_ENCODINGS and c.get('doc', 0) in range(len(KPSE_DOCS)))
     if c.get('op') == 'openmatrix':
         return (isinstance(c.get('path'), str) and bool(c['path']) and _valid_world(c.get('world')) and c.get('mode') in ('r', 'rb', 'w', 'wb') and
                 c.get('fn') in ('raw', 'unicode') and c.get('arg') in ('path', 'stream') and 'encoding' in c)
@@ -1858,9 +1904,20 @@ def gen_kpse(info):
         ({'kind': 'print', 'rc': 0, 'out': target + '\n'}, [name, target]),              # the name is a file: it wins
     ]
     cases = [{'op': 'kpse', 'fn': fn, 'script': sc, 'name': name, 'exists': ex} for sc, ex in worlds for fn in ('raw', 'unicode', 'parse')]
+    # the encoding given to the reader x where the file is: in the TeX tree (found by the program), under a path with blanks and
+    # non-ASCII, in the directory named (no lookup) -- files written in that encoding, two non-ASCII documents
+    enc_worlds = [worlds[0], worlds[4], worlds[14]]
+    n_enc = 0
+    for enc in KPSE_ENCODINGS:
+        for doc in range(len(KPSE_DOCS)):
+            for sc, ex in enc_worlds:
+                for fn in ('raw', 'unicode', 'parse'):
+                    cases.append({'op': 'kpse', 'fn': fn, 'script': sc, 'name': name, 'exists': ex, 'enc': enc, 'doc': doc})
+                    n_enc += 1
     info['scope_kpse'] = ('%d runs of open_raw / open_unicode / parse_file on real temporary files with a kpsewhich program of our own first on PATH '
                           '(found, wrong path, no newline, trailing white space, blanks and non-ASCII, exit 1 / 2 / 255, no output, missing program, '
-                          'not executable, name is a file)' % len(cases))
+                          'not executable, name is a file); of these %d with encoding= %r given to the call and the files written in it '
+                          '(found in the tree / odd path / name is a file x %d non-ASCII documents)' % (len(cases), n_enc, KPSE_ENCODINGS, len(KPSE_DOCS)))
     return cases
 
 
@@ -1872,6 +1929,21 @@ def _inject(rng, doc, pool):
             if rng.random() < 0.3 and not any(n.lower() in ('author', 'editor') for n, _ in cmd['fields']):
                 cmd['fields'].append(['author', [{'lit': 'Müller, Jürgen and %s, X' % rng.choice(INJECT_L1)}]])
     return doc
+
+
+LOCATED_ENCODINGS = ['latin-1', 'cp1252', 'utf-16', 'utf-8-sig', 'utf-32']
+
+
+def located_worlds(path):
+    """(path, files, world): the file is in the working directory; is not there and kpsewhich finds it in the TeX tree; the same under a
+    path with blanks and non-ASCII, given as the output of the program; in the working directory although kpsewhich would find another."""
+    tree, odd = '/texmf/bibtex/bib/' + path, '/tex mf/\u00fc\u4e2d/' + path
+    return [
+        (path, [path], {'isfile': [path], 'locate': {'kind': 'none'}, 'fail': [], 'environ': []}),
+        (path, [tree], {'isfile': [], 'locate': {'kind': 'found', 'path': tree}, 'fail': [], 'environ': []}),
+        (path, [odd], {'isfile': [], 'locate': {'kind': 'proc', 'rc': 0, 'stdout': odd + '\n'}, 'fail': [], 'environ': []}),
+        (path, [path, tree], {'isfile': [path], 'locate': {'kind': 'found', 'path': tree}, 'fail': [], 'environ': []}),
+    ]
 
 
 def gen_entrypoints(tier, rng, info):
@@ -1922,6 +1994,25 @@ def gen_entrypoints(tier, rng, info):
                         w = {'isfile': [], 'locate': {'kind': 'none'}, 'fail': fail, 'environ': [['TEXMFOUTPUT', tex]] if tex else []}
                         cases.append(dict(wr, world=w, path='o.dat', files=[]))
                         n_fault += 1
+    # where the file is found x the encoding given to the reader: the same encoded document in the working directory, in the TeX tree
+    # (kpsewhich prints its path) and under a path with blanks / non-ASCII; encodings other than the default one, text that is not ASCII
+    n_loc = 0
+    for fmt in fmts:
+        for enc in LOCATED_ENCODINGS:
+            for bib in (FIXED_DBS[2], FIXED_DBS[5]):
+                for path, files, w in located_worlds('refs.dat'):
+                    cases.append({'op': 'entrypoints', 'side': 'read', 'fmt': fmt, 'enc': enc, 'bib': bib, 'world': w, 'path': path, 'files': files})
+                    n_loc += 1
+    if tier != 'quick':
+        for i in range(150):
+            doc = _inject(rng, bibgen.gen_doc(rng, max_cmds=3), INJECT_L1)
+            bib = bibgen.render(doc, bibgen.Layout([], rng), {'ws': rng.choice([0, 1, 3, 4, 7])})
+            path = rng.choice(['in.dat', 'sub/refs.bib', 'x.y/z', 'r\u00e9f.dat'])
+            path, files, w = rng.choice(located_worlds(path))
+            cases.append({'op': 'entrypoints', 'side': 'read', 'fmt': rng.choice(fmts), 'enc': rng.choice(ENCODINGS[1:]), 'bib': bib,
+                          'world': w, 'path': path, 'files': files})
+            n_loc += 1
+    info['n_located'] = n_loc
     n_rand = 90 if tier == 'quick' else 600
     for i in range(n_rand):
         doc = bibgen.gen_doc(rng, max_cmds=4)
@@ -1939,8 +2030,11 @@ def gen_entrypoints(tier, rng, info):
                            'time: unicode_io True / False) x encodings %r x {read, write}: every entry point and every registered suffix (%d cases); '
                            'parse_files over %r (files, missing index) x formats x 4 encodings (%d cases); %d programmatically built databases (raw CR / CRLF, '
                            'tabs, outer blanks in fields, names, preamble) x formats x 3 encodings x {read, write} (%d cases); '
-                           '%d fault worlds through parse_file / to_file; %d random databases' % (
-                               len(FIXED_DBS), fmts, ENCODINGS, n_fixed, MULTI_SHAPES, len(multi), len(prog_dbs()), len(prog), n_fault, n_rand))
+                           '%d fault worlds through parse_file / to_file; %d reads of a non-ASCII document through parse_file in worlds where the file '
+                           'is in the working directory / is located by kpsewhich (plain path, path with blanks and non-ASCII) x reader encodings %r '
+                           'x formats; %d random databases' % (
+                               len(FIXED_DBS), fmts, ENCODINGS, n_fixed, MULTI_SHAPES, len(multi), len(prog_dbs()), len(prog), n_fault,
+                               info.pop('n_located'), LOCATED_ENCODINGS, n_rand))
     return cases
 
 
